@@ -248,7 +248,12 @@ def check(rep, ctx):
                 aware = True
             if t[0] == "ge" and t[1][0] in ("timestamp", "timegm") and t[2] == ("k", 0) and pol:
                 nonneg = True  # the instant in seconds since the epoch, however it is obtained
-        ms_ok = any(f[0][0] == "eq" and f[0][1] == ("mod", micro, ("k", 1000)) and f[0][2] == ("k", 0) and f[1] for f in p.facts)
+        def _micro_of_dt(t_):
+            # dt.microsecond, or the microsecond of dt converted to another zone (the precision of the instant)
+            return isinstance(t_, tuple) and len(t_) == 3 and t_[0] == "attr" and t_[2] == "microsecond" and \
+                (t_[1] == dtv.term or (isinstance(t_[1], tuple) and t_[1][:2] == ("astimezone", dtv.term)))
+        ms_ok = any(f[0][0] == "eq" and isinstance(f[0][1], tuple) and f[0][1][0] == "mod" and _micro_of_dt(f[0][1][1]) and f[0][1][2] == ("k", 1000)
+                    and f[0][2] == ("k", 0) and f[1] for f in p.facts)
         if not ms_ok and not gran_problem:
             gran_problem.append("does not restrict the value to whole milliseconds (dt.microsecond % 1000 == 0)")
     src_line = pred.node.lineno
